@@ -35,7 +35,7 @@ def chunks_at(N, cuts):
 class C02(Spec):
     PROP = 'C02'
     MODEL = 'queue'
-    PROOF_MODULES = ['PsiProofs.C02']
+    PROOF_MODULES = ['PsiProofs.C02', 'PsiProofs.C02ND']
     DESIGN_REF = 'DESIGN.md §6 C02'
     TRUST = [
         'modelled, not verified: ndarray slicing/np.concatenate/np.zeros semantics in pop_buffer; the generator '
